@@ -8,6 +8,10 @@ import AfkakProofs.Client.A_Unavail5
 import AfkakProofs.Client.A_Coroutine
 import AfkakProofs.Client.A_Follow
 import AfkakProofs.Client.A5_MonWitness
+import AfkakProofs.Client.A5_UnavailPos
+import AfkakProofs.Client.A5_Coalesce
+import AfkakProofs.Client.A5_Tied
+import AfkakProofs.Client.A5_UnawareLoop
 import AfkakProps.Open.C07
 /-!
 # C07 — requests reach the responsible broker; results return in payload order
@@ -199,7 +203,51 @@ example :
        ([3], BrokerResult.fail "timedOut"), ([1], BrokerResult.ok [⟨("t", 0), 10, 6⟩])]
       = ([⟨("t", 1), 11, 0⟩, ⟨("t", 0), 10, 6⟩, ⟨("t", 2), 12, 0⟩], [(3, "timedOut")]) := by decide
 
-/-- **The coroutine computes what the kernels compute** (every run of the client model, any event list, no hypothesis):
+/-- **The coroutine's requests and results, tied to the send they belong to** (session 5, after audit round 2 C07-1: the
+    witnesses of `C07_coroutine_requests_and_results` below are existentially quantified and tied to nothing of the run).
+    `SendsOk` - every send holds `routed = [(leader, 0), (leader, 1), …]` over ITS OWN key list while resolving and
+    `slots = groupByNode routed` once in flight - holds in every reachable state (1) and is preserved by every action
+    of the interpreter (2); in ANY state that satisfies it:
+    (3) the action that hands a payload request to a broker client (`issueSlot s j`) hands it exactly group `j` of
+    `groupByNode x.routed` for THE send `x = s` of that state - `x.routed` resolves every payload index of `x.keys` in
+    order - with `x`'s own keys at those indices and `x`'s `expect` flag, and the broker client `b` it hands it to is a
+    broker client of that group's node: so the requests of ONE send go to the pairwise distinct nodes of
+    `groupByNode x.routed` (`C07_one_request_per_broker`), carry disjoint index lists that cover the payload list
+    (`C07_requests_partition_payloads`), in payload order;
+    (4) the action that completes a send (`sendCheck s`) delivers to the send's own operation `x.o` exactly
+    `assemble x.keys results` where `results = slotResults x.expect slots` are the completions recorded in `x`'s own
+    slots (`reqDone` stores the completion of request `k` in the slot whose request is `k`), one per group of
+    `groupByNode x.routed` - so `C07_order`, `C07_failed_payloads`, `C07_accounting` apply to what the caller gets
+    with the SEND'S keys and the SEND'S per-request results.
+    Still not stated at trace level: that the leader column of `x.routed` is the cached leader at resolution time
+    (the model's `sendLookup` appends `(b.nodeId, i)` for the cache entry `b` of key `i`: by definition, no theorem), and
+    the correspondence between a slot's recorded completion and the `fire` event of its request across steps. -/
+theorem C07_coroutine_tied_to_send (cfg : Cfg) :
+    (∀ evs : List (Env × Ev), SendsOk (evs.foldl (fun s e => (step cfg s e.1 e.2).1) ({} : St))) ∧
+    (∀ (st : St) (a : Act), Ids st → SendsOk st → (∀ s, a = .sendIssue s → Ready st s) → SendsOk (exec cfg st a).1) ∧
+    (∀ (st : St) (s j : Nat), SendsOk st → ∀ k b e idxs ks, Ob.mk k b e (.payloads idxs ks) ∈ (exec cfg st (.issueSlot s j)).2.1 →
+      ∃ (x : Send) (slots : List Slot) (sl : Slot), sendGet st s = some x ∧ x.phase = .inflight slots ∧ slots[j]? = some sl ∧
+        x.routed.map (·.2) = List.range x.keys.length ∧ (groupByNode x.routed)[j]? = some (sl.node, sl.idxs) ∧
+        idxs = sl.idxs ∧ ks = sl.idxs.filterMap (fun i => x.keys[i]?) ∧ e = x.expect ∧
+        ∃ i ∈ (exec cfg st (.issueSlot s j)).1.bcs, i.b = b ∧ i.node = sl.node) ∧
+    (∀ (st : St) (s : Nat), SendsOk st → ∀ o r, Act.opResult o r ∈ (exec cfg st (.sendCheck s)).2.2 →
+      ∃ (x : Send) (slots : List Slot), sendGet st s = some x ∧ o = x.o ∧ x.phase = .inflight slots ∧
+        slots.map (fun sl => (sl.node, sl.idxs)) = groupByNode x.routed ∧ x.routed.map (·.2) = List.range x.keys.length ∧
+        (∀ tags, r = .responses tags → ∃ results, slotResults x.expect slots = some results ∧
+            results.map (·.1) = slots.map (·.idxs) ∧ (assemble x.keys results).2 = [] ∧
+            tags = (assemble x.keys results).1.map (·.tag)) ∧
+        (∀ tags failed, r = .failedPayloads tags failed → ∃ results, slotResults x.expect slots = some results ∧
+            results.map (·.1) = slots.map (·.idxs) ∧ failed = (assemble x.keys results).2 ∧ failed ≠ [] ∧
+            tags = (assemble x.keys results).1.map (·.tag))) :=
+  ⟨fun evs => (reachable_sendsOk cfg evs {} Ids.init SendsOk.init).1,
+   fun st a hi hs hr => exec_sendsOk cfg st a hi hs hr,
+   fun st s j hs k b e idxs ks hm => issueSlot_tied cfg st s j hs k b e idxs ks hm,
+   fun st s hs o r hm => sendCheck_tied cfg st s hs o r hm⟩
+
+/-- **The SHAPE of what the coroutine issues and returns** (every run of the client model, any event list, no hypothesis;
+    NOTE (audit round 2): `keys`, `routed`, `n`, `results` below are existentially quantified - this theorem only says
+    that every payload request / result occurring in a trace has the shape the kernels produce for SOME key list; the
+    statement tied to the send of the run is `C07_coroutine_tied_to_send` above):
     (1) every payload request `_send_broker_aware_request` hands to a broker client carries exactly one group of
     `groupByNode routed` for a `routed` that resolves EVERY payload index `0..n-1` of its send in order - so the
     kernel theorems `C07_one_request_per_broker` / `C07_requests_partition_payloads` apply to the requests the
@@ -291,7 +339,95 @@ example :
     (traceOf cfg {} evs).any (TItem.isBootConnectTo ("b", 2)) = true := by
   decide +kernel
 
-/-- The open statement `C07_unaware_unavailable_only_after_all` is FALSE of the model as stated: the model lets a broker
+/-- **"Unavailable" only AFTER every bootstrap host was tried** (session 5: the restated open statement, PROVED): in
+    every run of the client model without `close()` in which the broker clients complete requests with replies,
+    cancellations or Kafka errors (`benignRes`), the trace splits at ANY `result o (fail unavailable)` into
+    `pre ++ [result] ++ post` with a bootstrap connection attempt to every configured bootstrap host in `pre` -
+    before the caller sees the error, not merely somewhere in the run.  All event sequences: no well-formedness,
+    freshness, fuel or no-cancel hypothesis.  Proof: the invariant `UInv` of `…_partial` with a positional `Good`
+    (AfkakProofs/Client/A5_UnavailPos.lean). -/
+theorem C07_unaware_unavailable_only_after_all : Open.C07_unaware_unavailable_only_after_all := by
+  intro cfg evs o hc hb hm
+  have hb' : ∀ e ∈ evs, ∀ k r, e.2 = .fire k r → r.benign = true := by
+    intro e he k r heq
+    have := hb e he k r heq
+    cases r with
+    | ok p => rfl
+    | err kd => cases kd <;> first | rfl | (simp [benignRes, Kind.isKafkaError] at this)
+  obtain ⟨pre, post, heq, hcov⟩ := Pos.trace_unavailable_pos cfg evs {} [] (UInv.init cfg) hc hb' o hm
+  refine ⟨pre, post, heq, fun hp hhp => ?_⟩
+  rcases hcov hp hhp with h | h
+  · cases h
+  · exact h
+
+/-! Non-vacuity: the run of the example of `…_partial` (known broker times out, both bootstrap hosts refuse) satisfies
+    the hypotheses, and its `unavailable` result comes after the connection attempt to host b. -/
+example :
+    let cfg : Cfg := { timeout := 10, disconnectOnTimeout := false, bootHosts := [("a", 1), ("b", 2)] }
+    let evs : List (Env × Ev) :=
+      [({ shuffles := [[], [0, 1]] }, .load 0 []), ({}, .bootOk 0), ({}, .bootReply 0 (.metadata [⟨1, "h1", 9092⟩] [])),
+       ({ shuffles := [[0]] }, .load 1 []), ({ shuffles := [[1, 0]] }, .advance 10), ({}, .bootFail 1), ({}, .bootFail 2)]
+    evs.all (fun e => match e.2 with | .close _ => false | .fire _ r => benignRes r | _ => true) = true ∧
+    (traceOf cfg {} evs).any (TItem.isUnavResultOf 1) = true ∧
+    ((traceOf cfg {} evs).takeWhile (fun it => !TItem.isUnavResultOf 1 it)).any (TItem.isBootConnectTo ("b", 2)) = true := by
+  decide +kernel
+
+/-- **Concurrent coordinator look-ups for one group share one request** (`load_coordinator_for_group` /
+    its deprecated alias `load_consumer_metadata_for_group`, `_coordinator_fetches`): in ANY state of the client model
+    in which a look-up for group `g` is in flight, another `load_coordinator_for_group(g)` produces no observation at
+    all - no request to any broker client, no bootstrap connection, no new broker-agnostic request instance - and the
+    caller is queued as a waiter of the look-up in flight (it gets that look-up's result). -/
+theorem C07_coordinator_lookups_coalesce (cfg : Cfg) (st : St) (env : Env) (o : Nat) (g : String)
+    (h : st.cfetches.any (fun f => f.g == g) = true) :
+    (step cfg st env (.cload o g)).2 = [] ∧
+    (step cfg st env (.cload o g)).1.unawares = st.unawares ∧
+    (step cfg st env (.cload o g)).1.reqs = st.reqs ∧
+    ∀ f ∈ (step cfg st env (.cload o g)).1.cfetches, f.g = g → (Waiter.api o, false) ∈ f.waiters :=
+  cload_joins cfg st env o g h
+
+/-! Non-vacuity: after a bootstrap, a first look-up for g issues one FindCoordinator request; a second one while it is
+    in flight issues nothing; the reply answers both callers. -/
+example :
+    let cfg : Cfg := { timeout := 10, disconnectOnTimeout := false, bootHosts := [("boot", 9092)] }
+    let evs : List (Env × Ev) :=
+      [({ shuffles := [[], [0]] }, .load 0 []), ({}, .bootOk 0), ({}, .bootReply 0 (.metadata [⟨1, "h1", 9092⟩] [])),
+       ({ shuffles := [[0]] }, .cload 1 "g")]
+    let st := evs.foldl (fun s e => (step cfg s e.1 e.2).1) ({} : St)
+    st.cfetches.any (fun f => f.g == "g") = true ∧ (step cfg st {} (.cload 2 "g")).2 = [] ∧
+    ((step cfg (step cfg st {} (.cload 2 "g")).1 {} (.fire 0 (.ok (.coord 0 ⟨1, "h1", 9092⟩)))).2.filter
+      (fun ob => match ob with | .result _ .okTrue => true | _ => false)).length = 2 := by
+  decide +kernel
+
+/-- **"Tried on every known broker, connected ones first, and only then on the bootstrap hosts" - the broker loop, action
+    by action** (session 5; the first half of the sentence at the level of the coroutine's actions, in ANY state):
+    (1) `unawareStart` on an open client builds the list the loop walks from the shuffled known brokers: it holds every
+    known broker and only known brokers, those whose broker client reports connected first;
+    (2) the completion of a request of the loop moves on to the REST of that list exactly when it is a Kafka error
+    (time-out, closed client, …); a reply or any other failure ends the loop;
+    (3) while the list is non-empty the loop never turns to the bootstrap hosts (`bootNext` is pushed only by
+    `unawareNext u []`).  The second half (bootstrap hosts, positional) is `C07_unaware_unavailable_only_after_all`.
+    Not a trace-level statement: that the brokers known when the loop STARTED have all been tried before the first
+    bootstrap attempt of that loop follows from (1)-(3) along the loop's own actions, but is not stated over traces
+    (the monitor's `uattr`/`battr` rules check it on the real client's traces). -/
+theorem C07_unaware_loop_actions (cfg : Cfg) :
+    (∀ (st : St) (u : Nat), st.closing = false → ∀ st1 nodes, shuffle st (st.cache.brokers.map (·.1)) = some (st1, nodes) →
+      (exec cfg st (.unawareStart u)).2.2 = [.unawareNext u (connectedFirst st1 nodes)] ∧
+      (∀ n, hasKey n st.cache.brokers = true → n ∈ connectedFirst st1 nodes) ∧
+      (∀ n ∈ connectedFirst st1 nodes, hasKey n st.cache.brokers = true) ∧
+      ∃ l₁ l₂, connectedFirst st1 nodes = l₁ ++ l₂ ∧ (∀ n ∈ l₁, nodeConnected st1 n = true) ∧
+        (∀ n ∈ l₂, nodeConnected st1 n = false)) ∧
+    (∀ (st : St) (u : Nat) (rest : List Int) (k : Nat) (r : Res),
+      (reqDone st (.unaware u rest) k r).2 =
+        (match r with
+         | .ok _ => [Act.unawareDone u r]
+         | .err kind => if kind.isKafkaError then [Act.unawareNext u rest] else [Act.unawareDone u r])) ∧
+    (∀ (st : St) (u : Nat) (n : Int) (rest : List Int),
+      ∀ a ∈ (exec cfg st (.unawareNext u (n :: rest))).2.2, ∀ u' hosts, a ≠ .bootNext u' hosts) :=
+  ⟨fun st u hc st1 nodes hsh => unawareStart_order cfg st u hc st1 nodes hsh,
+   fun st u rest k r => unaware_reqDone st u rest k r,
+   fun st u n rest => unawareNext_no_boot cfg st u n rest⟩
+
+/-- The statement `C07_unaware_unavailable_only_after_all_v1` (sessions 3-4) is FALSE of the model as stated: the model lets a broker
     client fail a request with ANY failure kind, and `_send_broker_unaware_request` only swallows `KafkaError`s: a
     request failing with, say, a connection-lost error ends the broker loop, `_handleMetadataErr` turns the failure
     into `KafkaUnavailableError`, and the bootstrap hosts are never tried (witness `UnavailWitness`: host b is never
@@ -299,7 +435,7 @@ example :
     raising inside `_sendRequest` (`tReq.d.errback(e)` with the raw exception), which the in-memory network cannot
     provoke: the statement needs the environment assumption `benignFires` (then it is
     `C07_unaware_unavailable_only_after_all_partial`); it stays open as stated. -/
-theorem C07_unaware_unavailable_only_after_all_counterexample : ¬ Open.C07_unaware_unavailable_only_after_all := by
+theorem C07_unaware_unavailable_only_after_all_counterexample : ¬ Open.C07_unaware_unavailable_only_after_all_v1 := by
   open UnavailWitness in
   intro h
   have hwf : WellFormedRun cfg evs := ⟨by decide +kernel, noBadOp_of_all (by decide +kernel)⟩
@@ -313,15 +449,15 @@ theorem C07_unaware_unavailable_only_after_all_counterexample : ¬ Open.C07_unaw
   have := h cfg evs 1 hwf hnf hne (mem_unavResult_of_any (by decide +kernel)) ("b", 2) (by decide)
   exact no_bootConnect_of_all (hp := ("b", 2)) (tr := traceOf cfg {} evs) (by decide +kernel) this
 
-/-- The open statement `C07_model_traces_satisfy_monitor` is FALSE of the model as stated (session 5): `WellFormedRun`
+/-- The statement `C07_model_traces_satisfy_monitor_v1` (sessions 3-4) is FALSE of the model as stated (session 5): `WellFormedRun`
     admits a `connected()` report (`Ev.conn b v`) for a broker client that does not exist yet - a silent no-op of the
     model (no `badOp`), but the monitor files the report under the id `b`; the broker client created later with that id
     is connected for the monitor and unconnected for the model, and a broker-agnostic request ordered by the model
     (both brokers unconnected: shuffle order) violates the monitor's "connected brokers first" rule (witness
     `MonWitness`: `conn 0 true` before any broker client exists).  The real client cannot produce this history (the
     harness polls `connected()` of broker clients that exist): the statement is too strong, not the code defective; a
-    true version needs the hypothesis `connKnown` (AfkakProofs/Client/A5_MonWitness.lean).  It stays open as stated. -/
-theorem C07_model_traces_satisfy_monitor_counterexample : ¬ Open.C07_model_traces_satisfy_monitor := by
+    true version needs the hypothesis `connKnown`: the open statement `C07_model_traces_satisfy_monitor` is restated with it. -/
+theorem C07_model_traces_satisfy_monitor_counterexample : ¬ Open.C07_model_traces_satisfy_monitor_v1 := by
   open MonWitness in
   intro h
   have hwf : WellFormedRun cfg evs := ⟨by decide +kernel, noBadOp_of_all' (by decide +kernel)⟩
@@ -352,8 +488,11 @@ C07_unaware_unavailable_only_after_all_counterexample
 C07_coroutine_requests_and_results
 C07_clients_follow_brokers
 C07_model_traces_satisfy_monitor_counterexample
+C07_unaware_unavailable_only_after_all
+C07_coordinator_lookups_coalesce
+C07_coroutine_tied_to_send
+C07_unaware_loop_actions
 -/
 /- OPEN_STATEMENTS
 C07_model_traces_satisfy_monitor
-C07_unaware_unavailable_only_after_all
 -/
